@@ -503,9 +503,41 @@ func RunCheck(checkID, tier string) int {
 	if len(samples) == 0 {
 		samples = append(samples, map[string]any{"note": "no execution completed"})
 	}
-	if len(perScen) > 400 {
-		perScen = perScen[:400]
+	// completion summary per bound; incomplete scenarios are always listed (first), the table of
+	// complete ones is cut at 400 rows
+	boundSummary := map[string]map[string]int{}
+	var incomplete, complete []map[string]any
+	for _, row := range perScen {
+		planned, _ := row["bounds_planned"].([]int)
+		done, _ := row["bounds_completed"].([]int)
+		isDone := map[int]bool{}
+		for _, b := range done {
+			isDone[b] = true
+		}
+		for _, b := range planned {
+			k := fmt.Sprintf("bound %d", b)
+			if b < 0 {
+				k = "unbounded"
+			}
+			if boundSummary[k] == nil {
+				boundSummary[k] = map[string]int{}
+			}
+			boundSummary[k]["scenarios_planned"]++
+			if isDone[b] {
+				boundSummary[k]["scenarios_completed"]++
+			}
+		}
+		if len(done) != len(planned) {
+			incomplete = append(incomplete, row)
+		} else {
+			complete = append(complete, row)
+		}
 	}
+	rowsTotal := len(perScen)
+	if len(complete) > 400 {
+		complete = complete[:400]
+	}
+	perScen = append(incomplete, complete...)
 	ev := &Evidence{PropertyID: checkID, Tier: tier, Seed: seed, Level: "model_checking", WallS: time.Since(t0).Seconds(), Violations: nviol,
 		Coverage: map[string]any{
 			"states":                        max(tot.states, 1),
@@ -521,6 +553,9 @@ func RunCheck(checkID, tier string) int {
 			"budget_s":                      budget,
 			"workers":                       nw,
 			"per_scenario":                  perScen,
+			"per_scenario_rows_total":       rowsTotal,
+			"scenarios_incomplete":          len(incomplete),
+			"completion_by_bound":           boundSummary,
 			"explanation":                   "stateless exploration of the real (overlay-instrumented) implementation under a controlled scheduler; states = distinct happens-before state keys (or executions where the cache is off), transitions = scheduling decision points, every trace is an implementation run. " + c.Notes,
 		},
 		Assumptions: []string{
